@@ -78,4 +78,16 @@ PROPS = {
     "C07": det("corr.C07", "DET07", "props/C07.v", "fixed threshold, FFC-free streams with resets; spec S07 (history-based verdict) on the implementation's verdicts"),
     "C08": det("corr.C08", "DET08", "props/C08.v", "paired streams differing only in border pixels (fixed and dynamic threshold) or only in pixels at/below temp-thresh (fixed); both streams run on real detectors; spec: equal verdicts, thresholds, interior background"),
     "C09": det("corr.C09", "DET09", "props/C09.v", "streams with FFC events at every offset/parity, resets, fixed and dynamic threshold; paired same-shape streams agreeing from the first affected frame of an FFC period; spec S09_supp + equal verdicts from the pairing point"),
+    "C12": proc("corr.C12", "PROCFAULT", "props/C12.v", "failures (1-20 %) on every kind of call of all three sinks, continuous recorder on/off; each history ends with a fault-free recovery tail "
+                "(max+1 motionless frames, then max(1,trigger) motion frames, window open); compared projection: all calls with ids erased + panics; spec S12 && S12_recovers"),
+    "C13": {"stages": [{"harness": "PROCFAULT", "corr": "corr.C13", "n": {"quick": 160, "thorough": 3000}, "shard": 20},
+                       {"harness": "PARSE", "corr": "corr.C13p", "n": {"quick": 300, "thorough": 6000}, "shard": 60}],
+            "theorems": "props/C13.v",
+            "rule": (PROC_RULE % "faults on all sinks, bad frames at rate 0-20 % incl. doubled bad frames; full trace compared; spec S13") +
+                    " || parser stage: raw Lepton/Boson frames 2x2..8x7, edge 0-4, zeros planted per position class (border, first/last interior pixel, just inside/outside the border), "
+                    "extreme values, random telemetry words, through the real lepton3.ParseRawFrame / convertRawBosonFrame (driver binary); non-trivial = contains a zero pixel",
+            "trusted_base": PROC_TB + ["parser stage: frames are parsed into a fresh (zeroed) frame by the driver; temperatures compared as float64 bit patterns; encoding/binary trusted"]},
+    "C15": det("corr.C15", "DET15", "props/C15.v", "dynamic threshold with all four unset/set combinations of temp-thresh-min/max, scene mean below/inside/above the range, slow warming, preview 0-3 frames; "
+               "background (all pixels), weights (checksum of float32 bit patterns), threshold and backgroundFrames compared after every frame; spec S15"),
+    "C17": proc("corr.C17", "PROC", "props/C17.v", "fault-free continuous and test sinks, motion-sink refusals; compared projection: continuous and test sinks; spec S17c && S17t"),
 }
